@@ -288,4 +288,25 @@ theorem round_c14 {a : A} {s : State} (inv : Inv cfg a s) (r : Round) (hwf : Rou
 
 end round
 
+section hist
+variable {cfg : Cfg} (ok : CfgOK cfg) (hfuel : cfg.fuel = 0) (hperm : OrdPerm cfg) (hmt : cfg.mtClosed ≠ cfg.allTypes)
+  (hlog : 20 < cfg.logLevel)
+include ok hfuel hperm hmt hlog
+
+/-- the rounds of a history, one after the other -/
+theorem rounds_c14 : ∀ (rs : List Round) (a : A) (s : State), Inv cfg a s → RoundsWF rs → NoErr "C14" a →
+    NoErr "C14" ((List.zip rs (modelRounds cfg s rs)).foldl (fun a p => Spec.round cfg a p.1 p.2) a)
+  | [], _, _, _, _, hn => hn
+  | r :: rs, a, s, inv, hwf, hn => by
+    have hr : RoundWF r := hwf r (by simp)
+    obtain ⟨evs, hevs⟩ := step_out ok hfuel inv r hr
+    have hre : roundEvents cfg s r = evs := by
+      unfold roundEvents; rw [hevs, List.drop_left]
+    obtain ⟨inv1, _⟩ := round_ok ok hfuel hperm hmt inv r hr evs hevs
+    have h1 := round_c14 ok hfuel hperm hmt hlog inv r hr evs hevs hn
+    simp only [modelRounds, List.zip_cons_cons, List.foldl_cons, hre]
+    exact rounds_c14 rs (Spec.round cfg a r evs) (step cfg s r) inv1 (fun x hx => hwf x (by simp [hx])) h1
+
+end hist
+
 end Pyrtma.Mgr
